@@ -42,7 +42,9 @@ def esc(s: str) -> str:
 
 
 _PLAIN = re.compile(r"[A-Za-z_][A-Za-z0-9_]*\Z")
-_WORDS = re.compile(r"[A-Za-z_][A-Za-z0-9_]*( [A-Za-z_][A-Za-z0-9_]*)+\Z")
+# bare multi-word spelling: an identifier followed by further words, each an identifier or a "quoted chunk" (whose quote
+# characters are part of the coalesced content)
+_WORDS = re.compile(r'[A-Za-z_][A-Za-z0-9_]*( ([A-Za-z_][A-Za-z0-9_]*|"[^" \\\\]*"))+\Z')
 RESERVED = ("true", "false", "null", "vs")
 
 
@@ -276,7 +278,10 @@ class _R:
             head = " " * cols + key
             segs = [(head, None)]
             if target:
-                segs += [("[", None)] + self.v_ops("→§", False) + [(target + "]", None)]
+                # the section marker in a block target is optional on input (EBNF target_annotation); canonical text has it
+                omit = self.pick("target_marker", 2) == 1
+                arrow, mark = self.v_ops("→", False), self.v_ops("§", False)     # both always rendered: site ids stay stable
+                segs += [("[", None)] + arrow + ([] if omit else mark) + [(target + "]", None)]
             segs.append((":", None))
             self.line(segs + self.tail())
             self.children(children, cols)
@@ -304,7 +309,7 @@ class _R:
             self.node(c, cols + w)
 
     def meta(self, meta, inner=()):
-        self.line([("META:", None)])
+        self.line([("META:", None)] + self.tail())
         w = [2, 3, 4][self.pick("indent", 3)]
         for i, (key, v) in enumerate(meta):
             if i == 1:
@@ -330,7 +335,7 @@ class _R:
         hc = d.get("hc") or {}
         for c in hc.get("pre_env", ()):
             self.line([("// " + c, None)])
-        self.line([("===" + d["name"] + "===", None)])
+        self.line([("===" + d["name"] + "===", None)] + self.tail())
         for c in hc.get("pre_meta", ()):
             self.line([("// " + c, None)])
         if d["meta"]:
@@ -338,13 +343,13 @@ class _R:
         for c in hc.get("post_meta", ()):
             self.line([("// " + c, None)])
         if d["separator"]:
-            self.line([("---", None)])
+            self.line([("---", None)] + self.tail())
         for n in d["body"]:
             self.node(n, 0)
         for c in d["trailing"]:
             self.line([("// " + c, None)])
         if self.pick("end_marker", 2) == 0 or hc.get("post_end"):
-            self.line([("===END===", None)])
+            self.line([("===END===", None)] + self.tail())
         for c in hc.get("post_end", ()):
             self.line([("// " + c, None)])
 
